@@ -47,6 +47,9 @@ SIGNAL_CONFIGS = {
     "mixed": {"SIGINT": signal.default_int_handler, "SIGTERM": _h_callable, "SIGCHLD": signal.SIG_IGN},
     # as "default", and the application has already replaced reactor.stop on the reactor object
     "stopwrap": {"SIGINT": signal.default_int_handler, "SIGTERM": signal.SIG_DFL, "SIGCHLD": signal.SIG_DFL},
+    # as "default" for the first run; the application then installs other handlers ("callable")
+    # before it runs the same Spinner again
+    "switch": {"SIGINT": signal.default_int_handler, "SIGTERM": signal.SIG_DFL, "SIGCHLD": signal.SIG_DFL},
 }
 
 KINDS = (
@@ -239,6 +242,11 @@ def execute(scenario, chooser):
             late = run[3] if len(run) > 3 else None
             spec = (kind, extra)
             during = None
+            prestop = late == "prestop"
+            if prestop:
+                # the reactor is asked to stop during its start-up, ahead of the function
+                reactor.callWhenRunning(lambda: reactor.stop())
+                late = None
             if late in ("cb@", "eb@") and prev is not None and getattr(prev, "deferred", None) is not None and not prev.deferred.called:
                 # the previous run's Deferred fires after all DURING this run (half a time unit in)
                 during = (late, prev.deferred, idx - 1)
@@ -253,6 +261,9 @@ def execute(scenario, chooser):
                 spinner.clear_junk()
                 model_junk_pending = False
             rec = RunRecord()
+            if sigcfg == "switch" and idx == 1:
+                for name, h in SIGNAL_CONFIGS["callable"].items():
+                    signal.signal(getattr(signal, name), h)
             if sigcfg == "stopwrap":
                 class_stop = type(reactor).stop
 
@@ -285,6 +296,9 @@ def execute(scenario, chooser):
                     problems.append(("stale-junk", "%s: function was called although junk was pending" % where))
             else:
                 allowed = model_outcomes(spec, idx, interrupt_at)
+                if prestop:
+                    # whatever the function goes on to do, the stop request came first
+                    allowed = {("raised", "NoResultError", None)}
                 if o not in allowed:
                     clause = "result"
                     if idx > 0 and o[0] == "value" and o[1] != ("value", idx):
@@ -328,7 +342,7 @@ def execute(scenario, chooser):
                 problems.append(("cleanup", "%s: reactor holds selectables %r" % (where, extra_sel)))
             if reactor.stop != real_stop or (sigcfg == "stopwrap" and reactor.stop is not real_stop):
                 problems.append(("restore-stop", "%s: reactor.stop is %r afterwards, was %r" % (where, reactor.stop, real_stop)))
-            for name, h in SIGNAL_CONFIGS[sigcfg].items():
+            for name, h in SIGNAL_CONFIGS["callable" if (sigcfg == "switch" and idx >= 1) else sigcfg].items():
                 now = signal.getsignal(getattr(signal, name))
                 if now is not h and now != h:
                     problems.append(("restore-signals", "%s: %s handler is %r afterwards, was %r" % (where, name, now, h)))
@@ -371,6 +385,16 @@ def scenarios(tier):
                 out.append(("default", ((k1, "none", False), (k2, "none", True, late))))
                 for k3 in (("stop", 1), ("ret",), ("never",)):
                     out.append(("default", ((k1, "none", False), (k2, "none", True, late), (k3, "none", True, late))))
+    # the signal handlers change between two runs of one Spinner
+    for k1 in (("ret",), ("never",), ("fire", 1)):
+        for k2 in (("ret",), ("raise",), ("never",), ("stop", 1)):
+            out.append(("switch", ((k1, "none", False), (k2, "none", True))))
+    # the reactor is told to stop while it is starting up, before the function is called
+    for k in KINDS:
+        if k[0] in ("reenter", "reenter_survived"):
+            continue
+        out.append(("default", ((k, "none", False, "prestop"),)))
+        out.append(("default", ((("ret",), "none", False), (k, "none", True, "prestop"))))
     # ... or fires in the middle of the next run (which is long enough to see it)
     for k1 in (("never",), ("fire", 3), ("stop", 1)):
         for k2 in (("fire", 1), ("fire", 2), ("fail", 1), ("never",), ("stop", 1), ("fire", 3)):
